@@ -1,7 +1,11 @@
 // C18 correspondence harness: the real line_parser / csv_parser / ndjson_parser on generated
-// file sets.   args: <kind: lines|csv|ndjson> <specfile> <pathmode: files|dir|dup> [<calls>]
+// file sets.   args: <kind: lines|csv|ndjson> <specfile> <pathmode: files|dir|dup|tree-rec|tree-flat> [<calls> [<g0>]]
 // <calls> (default 1): number of back-to-back for_all calls on the SAME parser object with the same callback
 // type (so they share for_all's function-local static assignment list); every call prints "C <k>" first.
+// <g0> (default 0 = parse on a ygm::comm over MPI_COMM_WORLD): split the world into the groups [0,g0) and [g0,size)
+// with MPI_Comm_split, build one ygm::comm per group, every group parses the whole set with its own parser.
+// tree-rec / tree-flat: the files live in a directory tree (data/a*.txt, data/d1/a*.txt, data/d1/e/a*.txt, plus an
+// empty directory; file index order = sorted path order); the parser gets {data} with recursive = true / false.
 //
 // specfile:  "<nfiles>" then per file "<finalNL 0|1> <nlines> <len_0> ... <len_{nlines-1}>".
 // Rank 0 writes the files to $SIMMPI_TMP/data/f%03d.txt (removed with the run's temp dir); the
@@ -96,68 +100,88 @@ std::string item_json(const boost::json::object& o) {
 }  // namespace
 
 extern "C" int sim_main(int argc, char** argv) {
-  ygm::comm world(MPI_COMM_WORLD);
-  hc::open_out(world.rank());
+  int wrank = 0, wsize = 1;
+  MPI_Comm_rank(MPI_COMM_WORLD, &wrank); MPI_Comm_size(MPI_COMM_WORLD, &wsize);
+  hc::open_out(wrank);
   if (argc < 4) return 2;
   std::string kind = argv[1], spec = argv[2], pathmode = argv[3];
   int calls = argc > 4 ? atoi(argv[4]) : 1;
+  int g0 = argc > 5 ? atoi(argv[5]) : 0;
   const char* td = getenv("SIMMPI_TMP");
   std::string dir = std::string(td ? td : ".") + "/data";
+  bool tree = pathmode == "tree-rec" || pathmode == "tree-flat";
 
   // ---- read the spec (every rank: only the file count is needed off rank 0)
   FILE* sf = fopen(spec.c_str(), "r");
   if (!sf) return 3;
   size_t nfiles = 0; if (fscanf(sf, "%zu", &nfiles) != 1) return 3;
   std::vector<std::string> names;
-  for (size_t f = 0; f < nfiles; ++f) { char b[32]; snprintf(b, sizeof b, "/f%03zu.txt", f); names.push_back(dir + b); }
-  if (world.rank0()) {
-    std::filesystem::create_directories(dir);
-    for (size_t f = 0; f < nfiles; ++f) {
-      int nl = 0; size_t n = 0; if (fscanf(sf, "%d %zu", &nl, &n) != 2) return 3;
-      FILE* o = fopen(names[f].c_str(), "wb"); if (!o) return 4;
-      for (size_t i = 0; i < n; ++i) {
-        size_t L = 0; if (fscanf(sf, "%zu", &L) != 1) return 3;
-        std::string t = text_of(kind, f, i, L);
-        if (t.size() != L) { fprintf(stderr, "text rule cannot produce length %zu\n", L); return 5; }
-        fwrite(t.data(), 1, t.size(), o);
-        if (i + 1 < n || nl) fputc('\n', o);
-      }
-      fclose(o);
-      hc::out("F " + std::to_string(f) + " " + std::to_string(std::filesystem::file_size(names[f])));
-    }
+  size_t t1 = (nfiles + 2) / 3, t2 = t1 + (nfiles + 1) / 3;        // top level: [0,t1), d1: [t1,t2), d1/e: [t2,n)
+  for (size_t f = 0; f < nfiles; ++f) {
+    char b[48];
+    if (tree) snprintf(b, sizeof b, "%s/a%03zu.txt", f < t1 ? "" : f < t2 ? "/d1" : "/d1/e", f);
+    else snprintf(b, sizeof b, "/f%03zu.txt", f);
+    names.push_back(dir + b);
   }
-  fclose(sf);
-  world.barrier();
+  {
+    ygm::comm world(MPI_COMM_WORLD);
+    if (wrank == 0) {
+      std::filesystem::create_directories(dir);
+      if (tree) { std::filesystem::create_directories(dir + "/d1/e"); std::filesystem::create_directories(dir + "/d0empty"); }
+      for (size_t f = 0; f < nfiles; ++f) {
+        int nl = 0; size_t n = 0; if (fscanf(sf, "%d %zu", &nl, &n) != 2) return 3;
+        FILE* o = fopen(names[f].c_str(), "wb"); if (!o) return 4;
+        for (size_t i = 0; i < n; ++i) {
+          size_t L = 0; if (fscanf(sf, "%zu", &L) != 1) return 3;
+          std::string t = text_of(kind, f, i, L);
+          if (t.size() != L) { fprintf(stderr, "text rule cannot produce length %zu\n", L); return 5; }
+          fwrite(t.data(), 1, t.size(), o);
+          if (i + 1 < n || nl) fputc('\n', o);
+        }
+        fclose(o);
+        hc::out("F " + std::to_string(f) + " " + std::to_string(std::filesystem::file_size(names[f])));
+      }
+    }
+    fclose(sf);
+    world.barrier();
+  }
 
   std::vector<std::string> paths;
-  if (pathmode == "dir") paths.push_back(dir);
+  bool recursive = pathmode == "tree-rec";
+  if (pathmode == "dir" || tree) paths.push_back(dir);
   else if (pathmode == "dup") { for (auto it = names.rbegin(); it != names.rend(); ++it) paths.push_back(*it); paths.push_back(dir); for (auto& p : names) paths.push_back(p); }
   else paths = names;
 
-  // ---- the real parsers
-  if (kind == "lines") {
-    ygm::io::line_parser lp(world, paths);
-    for (int c = 0; c < calls; ++c) {
-      hc::out("C " + std::to_string(c));
-      lp.for_all([](const std::string& line) { hc::out(item_line(line)); });
+  // ---- the communicator the parser lives on
+  MPI_Comm sub = MPI_COMM_WORLD;
+  if (g0 > 0 && g0 < wsize) MPI_Comm_split(MPI_COMM_WORLD, wrank < g0 ? 0 : 1, wrank, &sub);
+  {
+    ygm::comm c(sub);
+    // ---- the real parsers
+    if (kind == "lines") {
+      ygm::io::line_parser lp(c, paths, false, recursive);
+      for (int k = 0; k < calls; ++k) {
+        hc::out("C " + std::to_string(k));
+        lp.for_all([](const std::string& line) { hc::out(item_line(line)); });
+      }
+    } else if (kind == "csv") {
+      ygm::io::csv_parser cp(c, paths, false, recursive);
+      for (int k = 0; k < calls; ++k) {
+        hc::out("C " + std::to_string(k));
+        cp.for_all([](const std::vector<ygm::io::detail::csv_field>& v) { hc::out(item_csv(v)); });
+      }
+    } else {
+      ygm::io::ndjson_parser jp(c, paths, false, recursive);
+      for (int k = 0; k < calls; ++k) {
+        hc::out("C " + std::to_string(k));
+        jp.for_all([](const boost::json::object& o) { hc::out(item_json(o)); });
+      }
     }
-  } else if (kind == "csv") {
-    ygm::io::csv_parser cp(world, paths);
-    for (int c = 0; c < calls; ++c) {
-      hc::out("C " + std::to_string(c));
-      cp.for_all([](const std::vector<ygm::io::detail::csv_field>& v) { hc::out(item_csv(v)); });
-    }
-  } else {
-    ygm::io::ndjson_parser jp(world, paths);
-    for (int c = 0; c < calls; ++c) {
-      hc::out("C " + std::to_string(c));
-      jp.for_all([](const boost::json::object& o) { hc::out(item_json(o)); });
-    }
+    c.barrier();
   }
-  world.barrier();
 
   // ---- oracle: sequential std::getline over every file, same item function / real record parsers
-  if (world.rank0()) {
+  if (wrank == 0) {
     for (size_t f = 0; f < nfiles; ++f) {
       std::ifstream ifs(names[f]); std::string line; size_t i = 0;
       while (std::getline(ifs, line)) {
